@@ -139,7 +139,7 @@ def today_of(ctx, model):
     return tuple(model.eval(x, model_completion=True).as_long() for x in ctx.today)
 
 
-def explore_closure(run, budget=5000, time_limit=120.0, interp_cls=Interp, cur_n=0, base=None):
+def explore_closure(run, budget=5000, time_limit=120.0, interp_cls=Interp, cur_n=0, base=None, lazy_rel=False):
     """all paths of a closure run(I, ctx) -> value; Raise outcomes are returned as the exception object"""
     out = []
     work = [[]]
@@ -156,6 +156,9 @@ def explore_closure(run, budget=5000, time_limit=120.0, interp_cls=Interp, cur_n
         else:
             ctx = Ctx(dec, cur_n)
         ctx.long_bound = LONG_BOUND
+        if lazy_rel:
+            ctx.lazy_rel = True       # unary decisions on relationally tied characters are not confirmed by the solver: more paths,
+            # fewer queries; every verdict is confirmed on the complete path condition anyway
         I = interp_cls(ctx)
         try:
             out.append((ctx, run(I, ctx)))
